@@ -402,3 +402,44 @@ package hclsyntax
 // verif:methods *).StartRange
 //@ nosafety
 //@ pure
+
+// ---- Variables() of every expression node is the walk-based search (unit U16c, C07) ----
+// verif:unit U16c props=C07
+// varsOf(e): the traversals the walk-based search reports for e (definition: the result of the
+// package function Variables). Every node type's Variables method returns exactly that for itself.
+// verif:specfunc varsOf(e Expression) []hcl.Traversal
+// verif:func Variables
+//@ trusted
+//@ assigns nothing
+//@ ensures ret === varsOf(expr)
+// verif:methods *).Variables
+//@ nosafety
+//@ ensures self: ret === varsOf(iface(e))
+
+// The reporting rule of the variables walker: a root scope traversal is reported (the callback is
+// called exactly once) unless its root name is bound by an enclosing child scope; entering a
+// ChildScope pushes its names, leaving it pops them, nothing else touches the scope stack.
+// verif:specfunc rootName(t hcl.Traversal) string
+// verif:extfunc github.com/hashicorp/hcl/v2.(Traversal).RootName
+//@ trusted
+//@ pure
+//@ ensures ret == rootName(t)
+// verif:ghostvar reported int
+// verif:func (variablesWalker).Callback.call
+//@ trusted
+//@ assigns reported
+//@ ensures reported == old(reported) + 1
+// verif:pred inLocal(w *variablesWalker, name string) = exists s int :: { w.localScopes[s] } 0 <= s && s < len(w.localScopes) && has(w.localScopes[s], name)
+// verif:func (*variablesWalker).Enter
+//@ nosafety
+//@ assigns reported, w.localScopes, w.localScopes[*]
+//@ ensures report: typeis(n, ptr(ScopeTraversalExpr)) && !old(inLocal(w, rootName(unbox(n, ptr(ScopeTraversalExpr)).Traversal))) ==> reported == old(reported) + 1
+//@ ensures bound: typeis(n, ptr(ScopeTraversalExpr)) && old(inLocal(w, rootName(unbox(n, ptr(ScopeTraversalExpr)).Traversal))) ==> reported == old(reported)
+//@ ensures push: typeis(n, ChildScope) ==> len(w.localScopes) == old(len(w.localScopes)) + 1 && w.localScopes[len(w.localScopes) - 1] == unbox(n, ChildScope).LocalNames && (forall s int :: { w.localScopes[s] } 0 <= s && s < old(len(w.localScopes)) ==> w.localScopes[s] == old(w.localScopes[s]))
+//@ ensures keep: !typeis(n, ChildScope) ==> w.localScopes === old(w.localScopes)
+//@ loop 1 invariant forall s int :: { w.localScopes[s] } 0 <= s && s <= rangeindex ==> !has(w.localScopes[s], name)
+// verif:func (*variablesWalker).Exit
+//@ nosafety
+//@ assigns w.localScopes
+//@ ensures pop: typeis(n, ChildScope) ==> len(w.localScopes) == old(len(w.localScopes)) - 1 && org(w.localScopes) == old(org(w.localScopes))
+//@ ensures keep: !typeis(n, ChildScope) ==> w.localScopes === old(w.localScopes)
